@@ -104,6 +104,9 @@ func c07(p *P) {
 	r.Rule("C07.R10", "instance start: host chain truncated to the maximum, then validated; never an error for a long honest chain", 8)
 	p.gReceiveGuards("C07.R11")
 	r.Rule("C07.R11", "delivery guards of receiveOne", 20)
+	p.gHandleDecisionAlarm("C07.R14")
+	r.Rule("C07.R14", "after a decision the host alarm is always re-programmed (no stale alarm re-enters the finished instance)", 1)
+	p.include(c12, map[string]string{"C12.R1": "C07.R13", "C12.R4": "C07.R13b", "C12.R5": "C07.R13c"}, map[string]string{"C07.R13": "at most one message per slot on the wire: filter ≺ WAL ≺ publish", "C07.R13b": "the filter is re-armed from the WAL on start", "C07.R13c": "filter table"})
 	p.include(c08, map[string]string{"C08.R1": "C07.R12"}, map[string]string{"C07.R12": "strong-quorum threshold exact (\"never commits bottom while holding a strong PREPARE quorum\")"})
 }
 
